@@ -27,6 +27,12 @@ def run(ctx):
         check_compose(ctx, F, A)
         check_adapters(ctx, F, A)
         check_sources(ctx, F, A)
+        from .decoder import Anchors, check_final_reset, NOD
+        an = Anchors(F)
+        A.invariant(NOD)
+        ctx.rule("R-C10-FINAL", "finalize() and reset() report the same pending-byte count from every decoder state (what the reader "
+                 "front-ends attach to an I/O error / EOF equals what the iterator front-ends report as trailing DiscardedBytes)")
+        check_final_reset(ctx, A, F, an, "R-C10-FINAL")
     except (AnchorMissing, Unsupported, KeyError) as e:
         ctx.violation("ANCHOR-MISSING", "reader", ("", 0, ""), "%s: %s" % (type(e).__name__, e))
     ctx.assumptions = [ASSUMPTIONS[k] for k in ("A1", "A2", "A4", "A6")]
